@@ -76,7 +76,7 @@ def build_props(PROPS):
         level_note='The induction over histories is a one-line meta-argument over the per-call proofs, not a CBMC obligation. A2, A7.',
         trusted_base=TB_COMMON, technique=TECH)
     PROPS['C15'] = dict(
-        level='proof', quick=ALL(['eav_is_email', 'eav_errstr', 'errors_table', 'eav_setup', 'is_5321_local', 'is_ascii_domain', 'is_tld']),
+        level='proof', quick=ALL(['eav_is_email', 'eav_errstr', 'errors_table', 'eav_setup', 'is_5321_local', 'is_ascii_domain', 'is_tld', 'email_822_literal']),
         thorough=ALL(['is_822_local', 'is_5322_local', 'is_6531_local', 'email_822_host']),
         level_text='Per-error-code postconditions with ghost witnesses on the validators (TOO_MANY_DOTS => the byte read and the next are both ".", NOT_ASCII => byte > 127, CTRL_CHAR => control byte, LABEL_TOO_LONG => run > 63, NUMERIC => only digits and dots, TLD_INVALID <=> not in the table ...); eav_is_email: return 1 <=> errcode 0, errcode = -rc, idnmsg = library message exactly for IDN errors; eav_errstr non-empty message of the recorded code; eav_setup 0 / EEAV_INVALID_RFC and the error is recorded.',
         level_note='A1, A7. That the text of errors[k] is about code k is checked by keyword (one or two words per code taken from the name of the code), not by meaning.',
